@@ -5,6 +5,8 @@ read-size compositions / chunk sizes / algorithm names on the real hashing
 streams and drivers, vs hashlib / blake3 on the whole content.
 """
 
+CASE_TIMEOUT = 60  # seconds per pool task (the unchanged tree needs a small fraction of this)
+
 import io
 import itertools
 
@@ -15,6 +17,26 @@ ALPHA = [b"a", b"\r", b"\n", b"\x00", b"\xff"]
 PLAIN_ALGOS = ["md5", "sha1", "sha256", "blake3", "MD5", "Sha256", "BLAKE3", "sha512", "sha3_256",
                "blake2b", "sha224"]
 CHUNKS = [1, 2, 3, 511, 512, 513, 2**20, -1]
+
+
+class ShortReader(io.RawIOBase):
+    """A source whose read(n) may return fewer than n bytes before EOF (pipe / socket / raw file)."""
+
+    def __init__(self, data, pattern):
+        self.data, self.pos, self.pattern, self.i = data, 0, pattern, 0
+
+    def readable(self):
+        return True
+
+    def read(self, n=-1):
+        k = self.pattern[self.i % len(self.pattern)]
+        self.i += 1
+        if n is None or n < 0:
+            n = len(self.data)
+        n = min(n, k)
+        out = self.data[self.pos: self.pos + n]
+        self.pos += len(out)
+        return out
 
 
 def compositions(n):
@@ -87,6 +109,23 @@ def check_string(s, full):
             got = fobj_md5(io.BytesIO(s), chunk_size=cs, name=name)
             if got != ref.digest(name, s):
                 viol.append((f"driver-wrong-digest/{name}", f"chunk={cs} data={s!r}"))
+    # (3b) sources that return short reads
+    for pattern in ((1,), (2,), (1, 3), (3, 1, 2)):
+        for cs in (2, 3, 512, 2**20):
+            n_ops += 1
+            got = fobj_md5(ShortReader(s, pattern), chunk_size=cs, name="md5")
+            if got != ref.digest("md5", s):
+                viol.append(("driver-wrong-digest-on-short-reads/md5", f"chunk={cs} pattern={pattern} data={s!r}"))
+        st = HashStreamFile(ShortReader(s, pattern), "sha256")
+        parts = []
+        while True:
+            c = st.read(4)
+            if not c:
+                break
+            parts.append(c)
+        n_ops += 1
+        if b"".join(parts) != s or st.hash_value != ref.digest("sha256", s) or st.total_read != n:
+            viol.append(("stream-wrong-on-short-reads", f"pattern={pattern} data={s!r}"))
     # (4) legacy dos2unix stream: single read >= 512
     for rd in (512, 513, 2**20):
         st = get_hash_stream(io.BytesIO(s), name="md5-dos2unix")
@@ -243,7 +282,7 @@ def run(ctx):
     ctx.rule = (
         f"E1: every byte string over {{a,CR,LF,NUL,0xff}} of length <= {L} x every composition of "
         "read sizes (+ oversize, -1) on the md5 stream, 11 algorithm names, 8 chunk sizes x 3 "
-        "algorithms on the driver, legacy dos2unix stream with 3 read sizes, CRLF/LF twins; "
+        "algorithms on the driver, sources returning short reads (4 patterns), legacy dos2unix stream with 3 read sizes, CRLF/LF twins; "
         "structured strings around the 512-byte window / 30 % ratio; file-level entry points on "
         "local and memory file systems incl. files around the 1 MiB read size; "
         "non-trivial = string of length >= 2"
